@@ -4,6 +4,8 @@ import (
 	"bytes"
 	"fmt"
 	"math/rand"
+	"os"
+	"path/filepath"
 	"sort"
 	"sync"
 	"sync/atomic"
@@ -235,6 +237,157 @@ func c06Round(t *testing.T, rng *rand.Rand, queries bool) (viol []string, stats 
 	return
 }
 
+
+// c06Restart: the node runs with a snapshot, processes a history of own and incoming user
+// events and queries - among them the queries serf handles internally (_serf_ping,
+// _serf_conflict, key requests), which share the query clock - is shut down cleanly and
+// restarted from the snapshot with nobody to sync with. The first event and the first query
+// it originates afterwards must be newer than everything it had processed before: the
+// snapshot's clock lines are the node's memory of that.
+// Only messages the node delivered to its pipeline count (no queries filtered away from this
+// node), and every incoming time is at or ahead of the node's clock, so each one is processed.
+func c06Restart(t *testing.T, rng *rand.Rand, base string) (viol []string, stats map[string]int, sig string) {
+	stats = map[string]int{}
+	dir, err := os.MkdirTemp(base, "rs")
+	if err != nil {
+		return []string{"SETUP: " + err.Error()}, stats, ""
+	}
+	defer os.RemoveAll(dir)
+	snap := filepath.Join(dir, "snap")
+	nOps := 3 + rng.Intn(25)
+	internalNames := []string{"_serf_ping", "_serf_conflict", "_serf_list-keys", "_serf_install-key", "_serf_use-key", "_serf_remove-key"}
+	var hist string
+	synctest.Test(t, c10Settled(func() {
+		net := simnet.New(1)
+		nd, err := cluster.Start(net, cluster.Opts{Name: "n1", IP: "10.0.0.1", Profile: "passive", Snap: snap, EventBuf: 16384})
+		if err != nil {
+			viol = append(viol, "SETUP: "+err.Error())
+			return
+		}
+		var maxQ, maxE uint64
+		var lastQ, lastE string
+		clock := func(key string) uint64 {
+			var cur uint64
+			fmt.Sscan(nd.S.Stats()[key], &cur)
+			return cur
+		}
+		for i := 0; i < nOps; i++ {
+			switch x := rng.Intn(10); {
+			case x < 2:
+				if _, err := nd.S.Query("q", []byte(fmt.Sprintf("own-%d", i)), &serf.QueryParam{Timeout: time.Second}); err == nil {
+					hist += "Query "
+					stats["own_queries"]++
+				}
+			case x < 4:
+				if err := nd.S.UserEvent("e", []byte(fmt.Sprintf("own-%d", i)), false); err == nil {
+					hist += "UserEvent "
+					stats["own_events"]++
+				}
+			case x < 5:
+				// a key request by this node's operator: a query with an internal name issued here
+				// (without a keyring the answer is an error; the query is issued all the same)
+				before := clock("query_time")
+				nd.S.KeyManager().ListKeys()
+				if clock("query_time") > before {
+					stats["own_internal_queries"]++
+				}
+				lt := clock("query_time") - 1
+				hist += fmt.Sprintf("ListKeys(->%d) ", lt)
+				if lt >= maxQ {
+					maxQ, lastQ = lt, "own key-list query"
+				}
+			case x < 7:
+				lt := clock("query_time") + uint64(rng.Intn(4))
+				name := "in"
+				if rng.Intn(3) != 0 {
+					name = internalNames[rng.Intn(len(internalNames))]
+					stats["incoming_internal_queries"]++
+				} else {
+					stats["incoming_queries"]++
+				}
+				nd.NotifyMsg(wire.Encode(wire.Query, &wire.MsgQuery{LTime: lt, ID: uint32(1000 + i), Addr: []byte{10, 0, 0, 9}, Port: 7946, SourceNode: "peer",
+					Timeout: time.Second, Name: name, Payload: []byte("zz")}))
+				hist += fmt.Sprintf("in-query(%s,%d) ", name, lt)
+				if lt >= maxQ {
+					maxQ, lastQ = lt, "incoming query "+name
+				}
+			default:
+				lt := clock("event_time") + uint64(rng.Intn(4))
+				nd.NotifyMsg(wire.Encode(wire.UserEvent, &wire.MsgUserEvent{LTime: lt, Name: "in", Payload: []byte(fmt.Sprintf("in-%d", i))}))
+				hist += fmt.Sprintf("in-event(%d) ", lt)
+				stats["incoming_events"]++
+				if lt >= maxE {
+					maxE, lastE = lt, "incoming event"
+				}
+			}
+			synctest.Wait()
+		}
+		time.Sleep(3 * time.Second)
+		synctest.Wait()
+		for _, e := range nd.Events() {
+			switch v := e.E.(type) {
+			case serf.UserEvent:
+				if uint64(v.LTime) >= maxE {
+					maxE, lastE = uint64(v.LTime), "event "+string(v.Payload)
+				}
+			case *serf.Query:
+				if uint64(v.LTime) >= maxQ {
+					maxQ, lastQ = uint64(v.LTime), "query "+string(v.Payload)
+				}
+			}
+		}
+		nd.Close()
+		time.Sleep(time.Second)
+		synctest.Wait()
+		// second life, from the snapshot, alone
+		nd2, err := cluster.Start(net, cluster.Opts{Name: "n1", IP: "10.0.0.1", Profile: "passive", Snap: snap, EventBuf: 16384})
+		if err != nil {
+			viol = append(viol, "SETUP: restart: "+err.Error())
+			return
+		}
+		defer nd2.Close()
+		first := rng.Intn(2)
+		for k := 0; k < 2; k++ {
+			if (k+first)%2 == 0 {
+				if _, err := nd2.S.Query("q", []byte("after-restart"), &serf.QueryParam{Timeout: time.Second}); err != nil {
+					viol = append(viol, "SETUP: Query after restart: "+err.Error())
+				}
+			} else if err := nd2.S.UserEvent("e", []byte("after-restart"), false); err != nil {
+				viol = append(viol, "SETUP: UserEvent after restart: "+err.Error())
+			}
+			synctest.Wait()
+		}
+		time.Sleep(2 * time.Second)
+		synctest.Wait()
+		gotQ, gotE := false, false
+		for _, e := range nd2.Events() {
+			switch v := e.E.(type) {
+			case serf.UserEvent:
+				if string(v.Payload) == "after-restart" {
+					gotE = true
+					stats["restart_event_checked"]++
+					if maxE > 0 && uint64(v.LTime) <= maxE {
+						viol = append(viol, fmt.Sprintf("RESTART: the first user event originated after a clean restart from the snapshot has LTime %d, not newer than %s (LTime %d) the node had processed before ; history: %s", v.LTime, lastE, maxE, hist))
+					}
+				}
+			case *serf.Query:
+				if string(v.Payload) == "after-restart" {
+					gotQ = true
+					stats["restart_query_checked"]++
+					if maxQ > 0 && uint64(v.LTime) <= maxQ {
+						viol = append(viol, fmt.Sprintf("RESTART: the first query originated after a clean restart from the snapshot has LTime %d, not newer than %s (LTime %d) the node had processed before ; history: %s", v.LTime, lastQ, maxQ, hist))
+					}
+				}
+			}
+		}
+		if !gotQ || !gotE {
+			stats["restart_own_not_observed"]++
+		}
+		sig = fmt.Sprintf("n%d-q%d-e%d-iq%d", nOps, maxQ, maxE, stats["incoming_internal_queries"]+stats["own_internal_queries"])
+	}))
+	return
+}
+
 func TestC06(t *testing.T) {
 	r := evid.Start(t, "C06", "exploration")
 	rounds := r.N(600, 6000)
@@ -260,6 +413,28 @@ func TestC06(t *testing.T) {
 			}
 		})
 	}
-	r.Finish("rounds of 2-16 goroutines x 5-20 UserEvent (resp. Query) calls on one real node, two thirds of the rounds with a concurrent feeder delivering incoming events/queries with LTimes around the node's clock; non-trivial = rounds in which operations actually overlapped (call/return stamps); distinct by (G,K,feeder,overlap bucket,incoming delivered)",
+	base, err := os.MkdirTemp("/verif/.run", "c06-")
+	if err != nil {
+		base = t.TempDir()
+	}
+	defer os.RemoveAll(base)
+	r.Cases("restart", r.N(150, 1500), 4, func(ci int, rng *rand.Rand) {
+		viol, stats, sig := c06Restart(t, rng, base)
+		r.Eval(1)
+		for k, v := range stats {
+			r.Count("restart_"+k, v)
+		}
+		if stats["restart_query_checked"] > 0 && stats["restart_event_checked"] > 0 && stats["incoming_internal_queries"]+stats["own_internal_queries"] > 0 {
+			r.Distinct("restart" + sig)
+		}
+		for _, v := range viol {
+			if len(v) > 6 && v[:6] == "SETUP:" {
+				r.Inconclusive(fmt.Sprintf("restart case %d: %s", ci, v))
+				continue
+			}
+			r.Violation("restart-from-snapshot", ci, v, nil)
+		}
+	})
+	r.Finish("rounds of 2-16 goroutines x 5-20 UserEvent (resp. Query) calls on one real node, two thirds of the rounds with a concurrent feeder delivering incoming events/queries with LTimes around the node's clock; non-trivial = rounds in which operations actually overlapped (call/return stamps); distinct by (G,K,feeder,overlap bucket,incoming delivered); plus restart histories: a node with a snapshot processes 3-27 own and incoming events and queries (user queries, the node's own key-list queries, incoming _serf_ping/_serf_conflict/key queries, which share the query clock), is shut down cleanly and restarted alone from the snapshot; the first event and first query it then originates must be newer than everything processed before (non-trivial = histories with an internal query)",
 		20, "LTime of an originated event/query is what the node itself delivers on EventCh for the unique payload", "an injected message counts as 'already processed' only if NotifyMsg returned before the call began and it was delivered")
 }
